@@ -95,6 +95,19 @@ def run(eng, rep, tier):
                 overwrites.append(sub)
     appends = [c for c in ast.walk(ft.node) if isinstance(c, ast.Call) and isinstance(c.func, ast.Attribute)
                and c.func.attr == "append" and isinstance(c.func.value, ast.Subscript)]
+    from .flow import _path_to
+    conditional = []
+    for c in appends:
+        anc = _path_to(ft.node, c)
+        fors = [i for i, a in enumerate(anc) if isinstance(a, ast.For)]
+        inner = anc[fors[-1]:] if fors else anc
+        if any(isinstance(a, ast.If) for a in inner):
+            conditional.append(c)
+    ob.decide("R1", "C14.3", ft, "every-production-recorded", bool(appends) and not conditional,
+              "inside the fill loops every production is appended to its cell unconditionally",
+              "a production is only recorded when its cell is new: a second production for the same cell is dropped and "
+              "the conflict is hidden from is_llone_parsable", None,
+              site=site_of(prog, ft, conditional[0] if conditional else ft.node))
     ob.decide("R1", "C14.3", ft, "cells-accumulate", len(appends) >= 2 and not overwrites,
               "both fills append to the cell (conflicts stay visible)",
               "a table cell is overwritten instead of accumulated: conflicts are hidden from is_llone_parsable", None,
